@@ -133,6 +133,10 @@ fn main() {
                 };
                 match r { Ok(b) => format!("ok {}", hexe(&b)), Err(e) => format!("err {}", e) }
             }
+            // history corpus: "h <perm>" encodes + decodes values of 5 (mutually) recursive / generic derived types in the
+            // given order on ONE fresh thread and prints each message; "dv" prints derived field orders
+            "h" => history_case(&p[1]),
+            "dv" => derive_orders(),
             // quota corpus: "q <case> <dq|-> <sq|->" decodes message #case at its Rust type under the given quotas
             "q" => quota_case(p[1].parse().unwrap(), &p[2], &p[3]),
             _ => "bad".to_string(),
@@ -153,7 +157,7 @@ struct Big { a: u8, b: String, c: Vec<u16>, d: Option<Vec<String>> }
 struct Small { a: u8 }
 
 fn quota_case(case: usize, dq: &str, sq: &str) -> String {
-    use candid::utils::{decode_args_with_config_debug, ArgumentEncoder};
+    use candid::utils::decode_args_with_config_debug;
     use candid::{DecoderConfig, Principal};
     let mut cfg = DecoderConfig::new();
     if dq != "-" { cfg.set_decoding_quota(dq.parse().unwrap()); }
@@ -178,4 +182,72 @@ fn quota_case(case: usize, dq: &str, sq: &str) -> String {
                show(decode_args_with_config_debug::<(Vec<Option<candid::Int>>,)>(&b, &cfg)) }
         _ => "bad".to_string(),
     }
+}
+
+
+mod hist {
+    use candid::{CandidType, Deserialize, Int};
+    #[derive(CandidType, Deserialize, Debug, PartialEq, Clone)]
+    pub struct Tree { pub value: Int, pub kids: Kids }
+    #[derive(CandidType, Deserialize, Debug, PartialEq, Clone)]
+    pub enum Kids { Leaf, Pair(Box<Tree>, Box<Tree>) }
+    #[derive(CandidType, Deserialize, Debug, PartialEq, Clone)]
+    pub struct List { pub head: u8, pub tail: Option<Box<List>> }
+    #[derive(CandidType, Deserialize, Debug, PartialEq, Clone)]
+    pub struct Wrap<T> { pub inner: T, pub more: Vec<Wrap<T>> }
+    #[derive(CandidType, Deserialize, Debug, PartialEq, Clone)]
+    pub enum Expr { Lit(i32), Add(Box<Expr>, Box<Expr>), Neg { e: Box<Expr> } }
+    pub fn tree() -> Tree {
+        let leaf = |n: i32| Tree { value: Int::from(n), kids: Kids::Leaf };
+        Tree { value: Int::from(-7), kids: Kids::Pair(Box::new(leaf(1)), Box::new(leaf(-2))) }
+    }
+}
+
+fn history_case(perm: &str) -> String {
+    let perm = perm.to_string();
+    let h = std::thread::spawn(move || {
+        use hist::*;
+        let mut out = Vec::new();
+        for c in perm.chars() {
+            macro_rules! rt { ($v:expr, $t:ty) => {{
+                let v: $t = $v;
+                match candid::encode_one(&v) {
+                    Ok(b) => match candid::decode_one::<$t>(&b) {
+                        Ok(back) => if back == v { format!("{}:{}", c, hexe(&b)) } else { format!("{}:DIFF", c) },
+                        Err(e) => format!("{}:DECERR {}", c, format!("{:?}", e).replace('\n', " ").chars().take(80).collect::<String>()),
+                    },
+                    Err(e) => format!("{}:ENCERR {}", c, format!("{:?}", e).replace('\n', " ").chars().take(80).collect::<String>()),
+                }
+            }} }
+            out.push(match c {
+                'T' => rt!(tree(), Tree),
+                'K' => rt!(Kids::Pair(Box::new(tree()), Box::new(tree())), Kids),
+                'L' => rt!(List { head: 1, tail: Some(Box::new(List { head: 2, tail: None })) }, List),
+                'W' => rt!(Wrap { inner: 5u16, more: vec![Wrap { inner: 6u16, more: vec![] }] }, Wrap<u16>),
+                'V' => rt!(Wrap { inner: Kids::Leaf, more: vec![] }, Wrap<Kids>),
+                'E' => rt!(Expr::Add(Box::new(Expr::Lit(1)), Box::new(Expr::Neg { e: Box::new(Expr::Lit(2)) })), Expr),
+                'y' => { let _ = <Tree as candid::CandidType>::ty(); format!("{}:ty", c) }     // type derivation only
+                'z' => { let _ = <Kids as candid::CandidType>::ty(); format!("{}:ty", c) }
+                _ => format!("{}:?", c),
+            });
+        }
+        out.join(" ")
+    });
+    match h.join() { Ok(s) => format!("ok {}", s), Err(_) => "panic".to_string() }
+}
+
+fn derive_orders() -> String {
+    use candid::types::{Label, TypeInner};
+    use candid::CandidType;
+    #[derive(CandidType)] struct A { r#type: u8, name: u8 }
+    #[derive(CandidType)] struct B { r#fn: u8, id: u8 }
+    #[derive(CandidType, candid::Deserialize)] struct C { #[serde(rename = "é")] x: u8, b: u8, #[serde(rename = "zü")] y: u8 }
+    #[derive(CandidType)] struct D { r#match: u8, r#loop: u8, plain: u8, r#async: u8 }
+    #[derive(CandidType, candid::Deserialize)] enum E { #[serde(rename = "é")] X, B, r#Type, Zz }
+    #[derive(CandidType)] struct F { abc: u8, r#abc2: u8, abd: u8 }
+    fn show(t: candid::types::Type) -> String {
+        let fs = match t.as_ref() { TypeInner::Record(fs) | TypeInner::Variant(fs) => fs.clone(), _ => vec![] };
+        fs.iter().map(|f| match f.id.as_ref() { Label::Named(n) => format!("n:{}", hexe(n.as_bytes())), Label::Id(i) | Label::Unnamed(i) => format!("i:{}", i) }).collect::<Vec<_>>().join(",")
+    }
+    format!("ok {} {} {} {} {} {}", show(A::ty()), show(B::ty()), show(C::ty()), show(D::ty()), show(E::ty()), show(F::ty()))
 }
